@@ -362,6 +362,7 @@ impl Scheduler {
 
         // Queue is now idle
         queue.core.lock().expect("JobQueue core lock").state = QueueState::Idle;
+        #[cfg(desync_verif)] super::verif_hooks::point("sync_immediate:after_idle");
 
         // Not running any more
         self.reschedule_queue(queue);
@@ -451,6 +452,7 @@ impl Scheduler {
             core.queue.push_back(unsafe_job);
             core.state == QueueState::Idle
         };
+        #[cfg(desync_verif)] super::verif_hooks::point("sync_background:after_push");
         if need_reschedule { self.reschedule_queue(queue); }
 
         // Wait for the result to arrive (and the sweet relief of no more unsafe job)
